@@ -52,7 +52,27 @@ func checkGuarded(c *Ctx, lc *LockCtx, scope []*ssa.Function, spec GuardSpec) in
 	if spec.Sub != "" {
 		tn += "." + spec.Sub
 	}
-	for _, f := range spec.Fields {
+	fields := spec.Fields
+	if len(fields) == 1 && fields[0] == "*" && spec.Sub == "" {
+		// every field the mutex sits in front of: all fields of the struct but the mutex itself and
+		// other synchronisation primitives (a renamed field stays covered)
+		fields = nil
+		if mv := c.P.FieldVar(spec.Type, spec.Mutex); mv != nil {
+			if st := structOfField(c.P, spec.Type); st != nil {
+				for i := 0; i < st.NumFields(); i++ {
+					fld := st.Field(i)
+					if fld.Name() == spec.Mutex || strings.HasPrefix(fld.Type().String(), "sync.") || strings.HasPrefix(fld.Type().String(), "sync/atomic.") {
+						continue
+					}
+					fields = append(fields, fld.Name())
+				}
+			}
+		}
+		if len(fields) == 0 {
+			c.Undecided("anchor", spec.Type+".*", "no guarded fields resolve")
+		}
+	}
+	for _, f := range fields {
 		fv := lookup(f)
 		if fv == nil {
 			c.Undecided("anchor", spec.Type+"."+f, "guarded field does not resolve")
@@ -153,4 +173,19 @@ func checkNoCallUnderLock(c *Ctx, lc *LockCtx, fn *ssa.Function, mutexSuffix str
 		c.Check(rule, fmt.Sprintf("%s@%s", methodName(ci.Common()), shortName(fn)), ci, bad == "",
 			fmt.Sprintf("call to %s while %s is held (callback/IO under lock)", calleeName(ci.Common()), bad))
 	}
+}
+
+// structOfField: the struct type named by "pkg/rel:TypeName".
+func structOfField(P *Program, typ string) *types.Struct {
+	i := strings.IndexByte(typ, ':')
+	pkg := P.Pkg(typ[:i])
+	if pkg == nil || pkg.Types == nil {
+		return nil
+	}
+	obj := pkg.Types.Scope().Lookup(typ[i+1:])
+	if obj == nil {
+		return nil
+	}
+	st, _ := obj.Type().Underlying().(*types.Struct)
+	return st
 }
